@@ -27,7 +27,10 @@ def long_args():
     return [d, "R" + d, "0x" + d, "-" + d, "@" + d, "r1 = " + d, "r" + d + " = 1", "1" + "+1" * 3000, "(" * 3000 + "1" + ")" * 3000,
             "-" * 5000 + "1", "@" * 5000 + "1", "1" + "*R1" * 400, "@" * 400 + "1 = 5", "r1 = " + "(" * 500 + "1", ",".join(["1"] * 3000),
             "1+" * 3000, "SET(R1, " + d + ")", "SET(R" + d + ", 1)", "SET(R1, " + "(" * 3000 + ")", ":" + "d" * 3000 + " 1", "x" * 100000,
-            " ".join(["1"] * 5000), "LABEL(" + "a" * 70000 + ")"]
+            " ".join(["1"] * 5000), "LABEL(" + "a" * 70000 + ")",
+            # literals that int() converts without limit but that cannot be printed in decimal
+            "0x" + "F" * 5000, "0b" + "1" * 20000, "r1 = 0o" + "7" * 6000, "-0x" + "F" * 5000 + " = 1", "LABEL(0x" + "F" * 5000 + ")",
+            "SET(R1, 0b" + "1" * 20000 + ")", "0x" + "F" * 5000 + " / 0x" + "F" * 5000]
 
 
 LONG = None
